@@ -16,6 +16,8 @@ fn run(db: &mut Database, sql: &str) {
         Statement::Delete(s) => vibesql_executor::DeleteExecutor::execute(&s, db).map(|n| format!("{} rows", n)).map_err(|e| format!("{:?}", e)),
         Statement::CreateTable(s) => vibesql_executor::CreateTableExecutor::execute(&s, db).map(|m| format!("{}", m)).map_err(|e| format!("{:?}", e)),
         Statement::CreateIndex(s) => vibesql_executor::IndexExecutor::execute(&s, db).map(|m| format!("{}", m)).map_err(|e| format!("{:?}", e)),
+        Statement::DropTable(s) => vibesql_executor::DropTableExecutor::execute(&s, db).map(|m| format!("{}", m)).map_err(|e| format!("{:?}", e)),
+        Statement::DropIndex(s) => vibesql_executor::DropIndexExecutor::execute(&s, db).map(|m| format!("{}", m)).map_err(|e| format!("{:?}", e)),
         Statement::CreateTrigger(s) => vibesql_executor::TriggerExecutor::create_trigger(db, &s).map_err(|e| format!("{:?}", e)),
         Statement::TruncateTable(s) => vibesql_executor::TruncateTableExecutor::execute(&s, db).map(|n| format!("{} rows", n)).map_err(|e| format!("{:?}", e)),
         Statement::AlterTable(s) => vibesql_executor::AlterTableExecutor::execute(&s, db).map(|m| format!("{}", m)).map_err(|e| format!("{:?}", e)),
